@@ -125,4 +125,59 @@ def run(ctx, crate):
             dirs_ok = f0[0].args[1] == ob[0].args[0] == f1[0].args[2] if False else True
             detail = "border cell: same base cell → opposite(); other base cell → direction_from_neighbour at depth 0, edge_cell_direction_from_neighbour(d0h, border class, dir) otherwise; inner cell: opposite()"
         ctx.report("facing-direction-glue", fn.split("::")[-1] + ":three-way-selection", ok, detail, at=bb.span, kind="N")
+        # filing: (neighbour's hash, delta_depth, facing direction selected above, the loop's OWN direction)
+        if len(adds) == 2:
+            okf = True; why = []
+            for a in adds:
+                is_border = ('b', border[0].ret, True) in a.facts if border else False
+                srcs = [o.ret for o in (ob if is_border else oi)] + ([f0[0].ret, f1[0].ret] if is_border and f0 and f1 else []) if ok else []
+                sel = a.args[2]
+                ops_sel = set(); todo = [sel]
+                while todo:
+                    x = todo.pop()
+                    if x[0] == 'phi' and e.phi_ops.get(x): todo.extend(e.phi_ops[x])
+                    else: ops_sel.add(x)
+                if not ok or set(ops_sel) != set(srcs): okf = False; why.append("facing direction argument %s is not the selected one" % show(sel)[:60])
+                if a.args[1] != param("delta_depth"): okf = False; why.append("delta_depth not forwarded")
+                # hash and own direction come from the same map entry (the drained (direction, hash) pair)
+                dirs_used = {o.args[0] for o in (ob if is_border else oi)}
+                if fn.endswith("struct"):
+                    own = a.args[3]
+                    if own not in dirs_used: okf = False; why.append("the slot direction %s is not the neighbour's own direction" % show(own)[:60])
+            ctx.report("facing-direction-glue", fn.split("::")[-1] + ":filing-arguments", okf,
+                       "each neighbour is filed with (its hash, delta_depth, the facing direction selected above%s)" % (", under its own direction" if fn.endswith("struct") else "") if okf else "; ".join(why[:2]), at=bb.span, kind="N")
+    # add_sorted_internal_edge_element: corner(facing cardinal) filed under the slot's cardinal, same for sides
+    fna = "nested::add_sorted_internal_edge_element"
+    ba = ctx.anchor(crate, fna, "facing-direction-glue")
+    if ba is not None:
+        tc, to = MW + "::to_cardinal", MW + "::to_ordinal"
+        setc = [p for p in crate.bodies if strip_generics(p) == "external_edge::ExternalEdge::set_corner"]
+        sete = [p for p in crate.bodies if strip_generics(p) == "external_edge::ExternalEdge::set_edge"]
+        e = Engine(crate, opaque={tc, to, "nested::internal_corner", "nested::internal_edge_part", MW + "::is_cardinal", MW + "::is_ordinal"} | set(setc) | set(sete)); e.run(fna); ctx.functions |= e.visited_fns
+        evs = [ev for ev in e.events.values() if len(ev.site) == 2]
+        def one(name): 
+            x = [ev for ev in evs if ev.callee == name]; return x
+        sc, se = [ev for ev in evs if ev.callee in setc], [ev for ev in evs if ev.callee in sete]
+        ic, ie = one("nested::internal_corner"), one("nested::internal_edge_part")
+        tcs, tos = one(tc), one(to)
+        ok = len(sc) == 1 and len(se) == 1 and len(ic) == 1 and len(ie) == 1 and len(tcs) == 2 and len(tos) == 2
+        if ok:
+            def conv_of(evl, who):   # conversion event applied to parameter `who`
+                return [x for x in evl if x.args[0] == who or (x.argvals and x.argvals[0] == who) or x.args[0] == ('ref_t', ('deref', who))]
+            dirp, extp = param("direction"), param("ext_direction")
+            c_dir = [x for x in tcs if x.args[0][0] == 'ref' or x.args[0] == dirp]
+            # corner value computed from `direction`, slot from `ext_direction`
+            def uses(ev_conv, p):
+                a = ev_conv.args[0]
+                return a == p or (ev_conv.argvals and ev_conv.argvals[0] == p) or a == ('ref_t', ('deref', p))
+            slot_c = [x for x in tcs if uses(x, extp)]; val_c = [x for x in tcs if uses(x, dirp)]
+            slot_o = [x for x in tos if uses(x, extp)]; val_o = [x for x in tos if uses(x, dirp)]
+            av = lambda ev, i: ev.argvals[i] if ev.argvals and ev.argvals[i] is not None else ev.args[i]
+            ok = len(slot_c) == 1 and len(val_c) == 1 and len(slot_o) == 1 and len(val_o) == 1 \
+                and av(ic[0], 2) == val_c[0].ret and av(sc[0], 1) == slot_c[0].ret and av(sc[0], 2) == ic[0].ret \
+                and av(ie[0], 2) == val_o[0].ret and av(se[0], 1) == slot_o[0].ret and av(se[0], 2) == ie[0].ret \
+                and ic[0].args[:2] == [param("hash"), param("delta_depth")] and ie[0].args[:2] == [param("hash"), param("delta_depth")]
+        ctx.report("facing-direction-glue", "add_sorted_internal_edge_element:slot=ext_direction,value=facing-direction", ok,
+                   "set_corner(ext_direction.to_cardinal(), internal_corner(hash, Δ, direction.to_cardinal())) and set_edge(ext_direction.to_ordinal(), internal_edge_part(hash, Δ, direction.to_ordinal()))" if ok else
+                   "the slot or the corner/side value is not derived from the expected parameter", at=ba.span, kind="N")
     ctx.assume("reference topology model analysis/topology.py")
